@@ -241,21 +241,6 @@ theorem only_route_panics (n : Nat) (s s' : Mux.State) (l : Mux.Label) (hs : Mux
 namespace Examples
 open Header Mux
 
-def hrun (hdr : Bytes) : List Header.Label → Header.State → Option Header.State
-  | [], s => some s
-  | l :: ls, s => (Header.step hdr s l).bind (hrun hdr ls)
-
-theorem hrun_reachable (hdr : Bytes) (ls : List Header.Label) :
-    ∀ s s', Header.Reachable hdr s → hrun hdr ls s = some s' → Header.Reachable hdr s' := by
-  induction ls with
-  | nil => intro s s' h e; cases e; exact h
-  | cons l ls ih =>
-    intro s s' h e
-    simp only [hrun] at e
-    cases hs : Header.step hdr s l with
-    | none => rw [hs] at e; cases e
-    | some s1 => rw [hs] at e; exact ih s1 s' (Header.Reachable.step l h hs) e
-
 /-- three goroutines write concurrently; 1 wins the once, 0 and 2 block, the transport completes 1, then 2, then 0 -/
 def hsched : List Header.Label :=
   [.call 0 [0xa#8], .call 1 [0xb#8], .call 2 [], .onceEnter 1, .onceEnter 0, .onceEnter 2,
@@ -270,21 +255,6 @@ example : ∃ s, Header.Reachable [1#8, 2#8] s ∧ s.failed = false ∧
     simp [hsched, hrun, Header.step, Header.init, Header.State.setPc, Header.written] at h
     subst h
     simp
-
-def mrun (n : Nat) : List Mux.Label → Mux.State → Option Mux.State
-  | [], s => some s
-  | l :: ls, s => (Mux.step n s l).bind (mrun n ls)
-
-theorem mrun_reachable (n : Nat) (ls : List Mux.Label) :
-    ∀ s s', Mux.Reachable n s → mrun n ls s = some s' → Mux.Reachable n s' := by
-  induction ls with
-  | nil => intro s s' h e; cases e; exact h
-  | cons l ls ih =>
-    intro s s' h e
-    simp only [mrun] at e
-    cases hs : Mux.step n s l with
-    | none => rw [hs] at e; cases e
-    | some s1 => rw [hs] at e; exact ih s1 s' (Mux.Reachable.step l h hs) e
 
 /-- Route("\x01"), an Accept on it, a connection "\x01\x09" is routed and delivered, then the context is
     cancelled and everything runs to quiescence. -/
